@@ -508,6 +508,11 @@ class C12(SolverSuite):
         if n_act >= 2 and rng.random() < 0.08 and actors["S0"]["objective"]["N"] == actors["S1"]["objective"]["N"] \
                 and not actors["S1"].get("params_obj"):
             actors["S1"]["start_point_from"] = "S0"      # S1 is started from the very Point object S0's Solution reports
+        if n_act >= 2 and rng.random() < 0.06:
+            # one console listener object attached to two solvers (a reporter must never write into what it reports)
+            shared = {"kind": "console", "mode": rng.choice(["full", "result", "custom"]), "iters": rng.choice([1, 3]), "shared": "L"}
+            actors["S0"].setdefault("listeners", []).append(dict(shared))
+            actors["S1"].setdefault("listeners", []).append(dict(shared))
         if rng.random() < 0.15:
             # helper-function style: the caller keeps the Solution it got and lets go of the Solver; other solvers run afterwards
             aid = rng.choice(sorted(actors))
@@ -866,6 +871,11 @@ class C13(SolverSuite):
             # BeforeMethodStart is over by then)
             late = {lid: ncalls for lid, ncalls in a.late_listeners}
             eff += [(lid, {"kind": "recording", "overrides": ["OnEndIteration", "OnMethodStop"], "late": True}) for lid in sorted(late)]
+            for lid in sorted(late):
+                nb = len([e for e in a.cb_events if e[1] == lid and e[2] == "BeforeMethodStart"])
+                if nb > 1:
+                    bad("before_start_count", "a listener attached in mid-run was told BeforeMethodStart %d times" % nb)
+                    return True
             for lid, ls in eff:
                 if ls["kind"] != "recording":
                     continue
@@ -1065,6 +1075,10 @@ class C16(SolverSuite):
             for p in self.cases_refine(rng, tier, run_seed):
                 yield p
             return
+        if idx % 5 == 1:
+            for p in self.cases_refined_then_fault(rng, tier, run_seed):
+                yield p
+            return
         L = rng.randint(3, 40) if rng.random() < 0.9 else rng.randint(40, 150)
         long_run = idx % 30 == 17
         if long_run:
@@ -1107,6 +1121,72 @@ class C16(SolverSuite):
                     yield G.base_plan(self.prop, run_seed, {"S0": spec}, ops, clock=clock,
                                       faults=[{"a": "S0", "at_eval": k, "exc": exc, "when": when, "persistent": persistent,
                                                "noargs": rng.random() < 0.3}])
+
+    def cases_refined_then_fault(self, rng, tier, run_seed):
+        """Solve with refinement; the budget is raised and the search goes on; the objective then fails: the result may not
+        be worse than the refined optimum that had been reported (it is an evaluated trial, and so are all completed ones)."""
+        L = rng.randint(4, 25)
+        spec = G.gen_actor(rng, max_iters=L, refine=True, shipped_prob=0.0, small_iters_prob=0.0, dims=(1, 2),
+                           families=["cones", "paraboloid", "sines", "paraboloid"])      # smooth: the refinement really improves
+        spec["params"]["itersLimit"] = L
+        spec["params"]["eps"] = G.EPS_MIN[spec["objective"]["N"]]
+        for _ in range(14):
+            extra = rng.randint(10, 80)
+            ops = [{"a": "S0", "op": "create"}, {"a": "S0", "op": "solve"}, {"a": "S0", "op": "setp", "field": "refineSolution", "value": False},
+                   {"a": "S0", "op": "setp", "field": "itersLimit", "value": L + extra}, {"a": "S0", "op": "solve"}]
+            yield G.base_plan(self.prop, run_seed, {"S0": copy.deepcopy(spec)}, ops, clock=G.gen_clock(rng), refined_then_fault=True,
+                              faults=[{"a": "S0", "at_eval": 10 ** 6, "rel_to_second_solve": rng.randint(max(1, extra // 2), extra), "exc": rng.choice(FAULT_KINDS),
+                                       "when": rng.choice(["before", "after"]), "persistent": False}])
+
+    def check_refined_then_fault(self, plan, rep, bad):
+        # first pass without the fault: where does the second Solve start?
+        free = copy.deepcopy(plan)
+        free["faults"] = []
+        w0 = World(free, []).run()
+        a0 = w0.actors["S0"]
+        if a0.aborted or len(a0.solve_info) < 2:
+            rep.inconclusive["refined_then_fault_not_applicable"] += 1
+            return rep
+        n_before = len([c for c in a0.calls if c.phase != "probe" and c.op_no <= a0.solve_info[0]["op_no"]])
+        n_total = len([c for c in a0.calls if c.phase != "probe"])
+        ft = plan["faults"][0]
+        k = n_before + int(ft["rel_to_second_solve"])
+        if k > n_total:
+            rep.inconclusive["fault_beyond_run"] += 1
+            return rep
+        p2 = copy.deepcopy(plan)
+        p2["faults"][0]["at_eval"] = k
+        w = World(p2, []).run()
+        rep.absorb_world(w)
+        rep.digest = w.digest()
+        rep.sig = core.short_hash((w.sig, k, ft["exc"]))
+        a = w.actors["S0"]
+        tag = "fault %s at evaluation %d of a search continued after a refining Solve" % (ft["exc"], k)
+        if not a.fired_faults or len(a.solve_info) < 2:
+            rep.inconclusive["fault_not_fired"] += 1
+            return rep
+        if a.solve_info[1]["raised"]:
+            bad("escaped", "%s: Solve did not return, it raised %s" % (tag, a.solve_info[1]["raised"]), ft["exc"])
+            return rep
+        sols = [s for s in a.solutions if s["kind"] == "solve"]
+        if len(sols) < 2 or "error" in sols[1] or "error" in sols[0]:
+            bad("result", "%s: unreadable result" % tag)
+            return rep
+        done = [c for c in a.calls if c.completed and c.phase != "probe"]
+        hit = [c for c in done if c.y == sols[1]["point"]]
+        if not hit or not any(c.value == sols[1]["value"] for c in hit):
+            bad("best_value", "%s: the result %r at %r is not a completed evaluation with its value" % (tag, sols[1]["value"], sols[1]["point"]))
+            return rep
+        if sols[1]["value"] > sols[0]["value"]:
+            bad("best_value", "%s: the result value %r is worse than the optimum %r the first Solve had reported" % (tag, sols[1]["value"], sols[0]["value"]))
+            return rep
+        gl = [c.value for c in done if c.phase in ("global", "global_extra")]
+        if gl and sols[1]["value"] > min(gl):
+            bad("best_value", "%s: the result value %r is worse than the best completed global trial %r" % (tag, sols[1]["value"], min(gl)))
+            return rep
+        rep.probes["refined_then_fault_runs"] += 1
+        rep.nontrivial = core.short_hash((plan["actors"]["S0"]["objective"], plan["actors"]["S0"].get("lower"), k, ft["exc"], "rtf"))
+        return rep
 
     def cases_refine(self, rng, tier, run_seed):
         """refineSolution=True: the failing evaluation ranges over the global AND the local phase."""
@@ -1211,6 +1291,8 @@ class C16(SolverSuite):
 
         def bad(clause, msg, locus="fault"):
             rep.violations.append(core.Violation(P, clause, msg, locus))
+        if plan.get("refined_then_fault"):
+            return self.check_refined_then_fault(plan, rep, bad)
         # the reference run uses the very same driver ops (so this check does not rest on C11)
         twin = _twin_for(spec, [o for o in plan["ops"] if o["a"] == "S0"])
         rep.n_exec = 2
